@@ -83,6 +83,8 @@ func runC04(c *Config, r *Report) {
 	c04R15(ic, r)
 	c04R16(ic, r)
 	c04R17(ic, r)
+	c04R19(ic, r)
+	c04R20(ic, r, "R04.20")
 	copiersAlwaysCopy(ic, r, "R04.18")
 	{
 		sub := newReport("C01")
@@ -1148,5 +1150,240 @@ func c04R17(ic *IC, r *Report) {
 	}
 	if n < 5 {
 		r.Errorf("R04.17: only %d closures populating a composite value found", n)
+	}
+}
+
+func init() {
+	ruleText["R04.19"] = "every composite-literal generator can give the literal a new variable: its run-time closure, or the in-package helper that produced the function it stores through, contains a statement replacing a frame slot by the built value (X.data[i] = v) beside the in-place Set - without it every evaluation of &[2]int{...}, &[]T{...} or &map[K]V{...} in one frame returns a pointer to the same storage"
+}
+
+// c04R19: found through the round-6 report on C04 (E03). arrayLit, mapLit and the generators
+// for literals of compiled slice and map types always Set the literal into the literal's own
+// frame slot; & took the address of that slot, so a loop collected three times the same pointer.
+func c04R19(ic *IC, r *Report) {
+	info := ic.Info
+	work := compositeBuilders(ic, r, "R04.19")
+	if work == nil {
+		return
+	}
+	execFld := ic.field("node", "exec")
+	replaces := func(body ast.Node) bool {
+		found := false
+		ast.Inspect(body, func(q ast.Node) bool {
+			as, ok := q.(*ast.AssignStmt)
+			if !ok {
+				return true
+			}
+			for _, l := range as.Lhs {
+				if ix, ok := unparen(l).(*ast.IndexExpr); ok {
+					if v := selField(info, ix.X); v != nil && v.Name() == "data" {
+						found = true
+					}
+				}
+			}
+			return true
+		})
+		return found
+	}
+	n := 0
+	for _, f := range work {
+		fi := ic.G.Funcs[f]
+		// helpers producing a store function: local := helper(n)
+		helpers := map[types.Object]*FuncInfo{}
+		ast.Inspect(fi.Decl.Body, func(q ast.Node) bool {
+			as, ok := q.(*ast.AssignStmt)
+			if !ok || len(as.Lhs) != 1 || len(as.Rhs) != 1 {
+				return true
+			}
+			c, ok := unparen(as.Rhs[0]).(*ast.CallExpr)
+			if !ok {
+				return true
+			}
+			if g, ok := calleeOf(info, c).(*types.Func); ok && g.Pkg() == ic.Pk.Types {
+				if g.Type().(*types.Signature).Results().Len() != 1 {
+					return true
+				}
+				if rs, isFn := g.Type().(*types.Signature).Results().At(0).Type().Underlying().(*types.Signature); isFn && rs.Params().Len() == 2 {
+					if id := identOf(as.Lhs[0]); id != nil {
+						helpers[info.ObjectOf(id)] = ic.G.Funcs[g]
+					}
+				}
+			}
+			return true
+		})
+		k := 0
+		ast.Inspect(fi.Decl.Body, func(m ast.Node) bool {
+			as, ok := m.(*ast.AssignStmt)
+			if !ok || len(as.Lhs) != 1 || len(as.Rhs) != 1 || selField(info, as.Lhs[0]) != execFld {
+				return true
+			}
+			fl, ok := unparen(as.Rhs[0]).(*ast.FuncLit)
+			if !ok {
+				return true
+			}
+			k++
+			n++
+			can := replaces(fl.Body)
+			via := ""
+			if !can {
+				for _, c := range allCalls(fl.Body) {
+					if id := identOf(c.Fun); id != nil {
+						if h := helpers[info.ObjectOf(id)]; h != nil && h.Decl.Body != nil {
+							via = funcName(h.Decl)
+							if replaces(h.Decl.Body) {
+								can = true
+							}
+						}
+					}
+				}
+			}
+			why := "its closure only stores the built value in place"
+			if via != "" {
+				why = "it stores through " + via + ", which only stores in place"
+			}
+			r.Check(can, "R04.19", fmt.Sprintf("%s/closure#%d/can-give-the-literal-a-new-variable", f.Name(), k), ic.pos(fl.Pos()), "a slot-replacing store exists beside the in-place one",
+				"the generator "+f.Name()+" has no way to give the literal a new variable ("+why+"): every evaluation writes the same storage, so &[2]int{i, i} evaluated in a loop yields three times the same pointer ([2 2] [2 2] [2 2], ps[0] == ps[1])")
+			return true
+		})
+	}
+	if n < 6 {
+		r.Errorf("R04.19: only %d closures of composite-literal generators found", n)
+	}
+}
+
+func init() {
+	ruleText["R04.20"] = "a value converted to an interface is copied: in every run-time closure, the value put in an interface wrapper (valueInterface{node, X}) is not the plain result of an operand generator (X := value(f), possibly unwrapped from an inner wrapper) - it goes through the copier or is created in the closure; the interface value must not change when the variable it was made from is assigned"
+}
+
+// c04R20: found through the round-6 reports on C04 (E05/E13), C05 and C08 (E3).
+// genValueInterface wrapped the addressable reflect.Value of the variable: var i shape = q;
+// q.s = 3; i.area() saw 3, a goroutine argument or a value sent on a chan of interface type
+// followed the sender's variable.
+func c04R20(ic *IC, r *Report, rule string) {
+	info := ic.Info
+	cp := copiers(ic)
+	isGen := func(t types.Type) bool {
+		sg, ok := t.Underlying().(*types.Signature)
+		return ok && sg.Params().Len() == 1 && isNamedPtr(sg.Params().At(0).Type(), "frame") && sg.Results().Len() == 1 && types.TypeString(sg.Results().At(0).Type(), nil) == "reflect.Value"
+	}
+	viT, _ := ic.Pk.Types.Scope().Lookup("valueInterface").(*types.TypeName)
+	if viT == nil {
+		r.Errorf("%s: type valueInterface not found", rule)
+		return
+	}
+	n, nDerived := 0, 0
+	for _, name := range sortedKeys(ic.F) {
+		fi := ic.F[name]
+		if fi.Decl.Body == nil {
+			continue
+		}
+		k := 0
+		for _, fl := range (&c02ctx{ic: ic}).closuresOf(fi) {
+			// locals holding the plain result of an operand generator
+			plain := map[types.Object]bool{}
+			ast.Inspect(fl.Body, func(q ast.Node) bool {
+				as, ok := q.(*ast.AssignStmt)
+				if !ok || len(as.Lhs) != len(as.Rhs) {
+					return true
+				}
+				for i, rh := range as.Rhs {
+					c, ok := unparen(rh).(*ast.CallExpr)
+					if !ok {
+						continue
+					}
+					if t := info.TypeOf(c.Fun); t != nil && isGen(t) {
+						if id := identOf(as.Lhs[i]); id != nil {
+							plain[info.ObjectOf(id)] = true
+						}
+					}
+				}
+				return true
+			})
+			ast.Inspect(fl.Body, func(q ast.Node) bool {
+				cl, ok := q.(*ast.CompositeLit)
+				if !ok {
+					return true
+				}
+				if t := info.TypeOf(cl); t == nil || !types.Identical(t, viT.Type()) || len(cl.Elts) == 0 {
+					return true
+				}
+				var val ast.Expr
+				for i, e := range cl.Elts {
+					if kv, ok := e.(*ast.KeyValueExpr); ok {
+						if id := identOf(kv.Key); id != nil && id.Name == "value" {
+							val = kv.Value
+						}
+					} else if i == 1 {
+						val = e
+					}
+				}
+				if val == nil {
+					return true
+				}
+				n++
+				derived := false
+				if id := identOf(val); id != nil && plain[info.ObjectOf(id)] {
+					derived = true
+				}
+				if c, ok := unparen(val).(*ast.CallExpr); ok {
+					if t := info.TypeOf(c.Fun); t != nil && isGen(t) {
+						derived = true
+					}
+					if g, ok := calleeOf(info, c).(*types.Func); ok && cp[g] {
+						// copied: count it as an instance of the rule
+						if len(c.Args) == 1 {
+							if id := identOf(c.Args[0]); id != nil && plain[info.ObjectOf(id)] {
+								nDerived++
+								k++
+								r.Pass(rule, fmt.Sprintf("%s/interface-wrapper#%d/value-copied", name, k), ic.pos(cl.Pos()), "the wrapped value goes through "+g.Name())
+							}
+						}
+						return true
+					}
+				}
+				if !derived {
+					// a copy made inline: c := reflect.New(T).Elem(); c.Set(v)
+					if id := identOf(val); id != nil {
+						obj := info.ObjectOf(id)
+						fresh, fromPlain := false, false
+						ast.Inspect(fl.Body, func(z ast.Node) bool {
+							switch y := z.(type) {
+							case *ast.AssignStmt:
+								if len(y.Lhs) == len(y.Rhs) {
+									for i, l := range y.Lhs {
+										if lid := identOf(l); lid != nil && info.ObjectOf(lid) == obj && isFreshValue(ic, cp, y.Rhs[i]) {
+											fresh = true
+										}
+									}
+								}
+							case *ast.CallExpr:
+								if isCallTo(info, y, "reflect.Value.Set") && len(y.Args) == 1 {
+									if rid := identOf(unparen(y.Fun).(*ast.SelectorExpr).X); rid != nil && info.ObjectOf(rid) == obj {
+										if aid := identOf(y.Args[0]); aid != nil && plain[info.ObjectOf(aid)] {
+											fromPlain = true
+										}
+									}
+								}
+							}
+							return true
+						})
+						if fresh && fromPlain {
+							nDerived++
+							k++
+							r.Pass(rule, fmt.Sprintf("%s/interface-wrapper#%d/value-copied", name, k), ic.pos(cl.Pos()), "the wrapped value is a copy made in the closure")
+						}
+					}
+					return true
+				}
+				nDerived++
+				k++
+				r.Fail(rule, fmt.Sprintf("%s/interface-wrapper#%d/value-copied", name, k), ic.pos(cl.Pos()),
+					"the run-time closure generated by "+name+" wraps "+types.ExprString(val)+", the plain result of an operand generator, in an interface value: it is the addressable value of the variable itself, so the interface changes when the variable is assigned afterwards - var i shape = q; q.s = 3; i.area() computes with 3, go show(q) and ch <- q deliver what q holds when the receiver reads it")
+				return true
+			})
+		}
+	}
+	if n < 5 || nDerived == 0 {
+		r.Errorf("%s: %d interface wrappers found in run-time closures, %d made from an operand (the generator of interface conversions expected)", rule, n, nDerived)
 	}
 }
